@@ -33,7 +33,7 @@ RULE = (
 )
 ASSUMPTIONS = ["A5: a class definition that dies inside mashumaro's code generation is counted as backend_unsupported and not judged"]
 NSHARDS = 16
-ATOMS = ["int", "str", "Any", "None", "Lit", "Enum", "NI", "NN", "NL", "N1", "N2", "FR", "NT", "NO"]
+ATOMS = ["int", "str", "Any", "None", "Lit", "Enum", "NI", "NN", "NL", "N1", "N2", "FR", "NT", "NO", "Lst", "Dct", "St"]
 SECOND = ["int", "None", "N2", "FR", "NL"]
 ATOMS_RED = ["int", "None", "N1", "NN", "FR", "NL"]
 SECOND_RED = ["None", "N2", "int"]
@@ -112,6 +112,10 @@ def probe(mod, t, postponed, placement):
              "kwonly": "default=None, kw_only=True"}
     if placement == "alone":
         src = f"{head}@dataclass(frozen=True)\nclass {cname}(ASTNode):\n    f: {ann}\n"
+    elif placement == "deferred":
+        # another field of the class refers to a class defined later, so the definition-time check cannot run and the verdict
+        # is reached at first use
+        src = f"{head}@dataclass(frozen=True)\nclass {cname}(ASTNode):\n    f: {ann}\n    zz: Optional['{lname}'] = None\n"
     elif placement in FLAGS:
         # the dataclass options of a field (not an init argument, not compared, keyword-only) have no bearing on its kind
         src = f"{head}@dataclass(frozen=True)\nclass {cname}(ASTNode):\n    f: {ann} = field({FLAGS[placement]})\n"
@@ -205,7 +209,7 @@ def run_shard(cfg):
                 continue
             placements = ["alone", "inherited", "override"] if (cfg["tier"] == "thorough" and d <= 2) or d <= 1 else ["alone"]
             if d <= 1:
-                placements += ["noinit-nocompare", "noinit", "nocompare", "kwonly"]
+                placements += ["noinit-nocompare", "noinit", "nocompare", "kwonly", "deferred"]
             for placement in placements:
                 mine = idx % cfg["of"] == cfg["k"]
                 idx += 1
